@@ -48,6 +48,18 @@ func c19Tree(c *C19Case) *wvlib.Build {
 		add(wvlib.BEntry{Path: "abs-link", Kind: 'l', Dest: "/abs/olute"})
 		add(wvlib.BEntry{Path: "top/dir-link", Kind: 'l', Dest: "mid"})
 		add(wvlib.BEntry{Path: "empty.bin", Kind: 'f'})
+		// contents a copy loop may treat specially: runs of zero bytes (sparse / pre-allocated files) at the start,
+		// in the middle and at the END of files whose sizes are and are not multiples of the usual buffer sizes
+		const K = 32 * 1024
+		zeros := func(n int) []byte { return make([]byte, n) }
+		cat := func(parts ...[]byte) []byte { return bytes.Join(parts, nil) }
+		add(wvlib.BEntry{Path: "zeros/all-64k.bin", Kind: 'f', Data: zeros(2 * K)})
+		add(wvlib.BEntry{Path: "zeros/tail-96k.bin", Kind: 'f', Data: cat(r.Bytes(K), zeros(2*K))})
+		add(wvlib.BEntry{Path: "zeros/tail-odd.bin", Kind: 'f', Data: cat(r.Bytes(K+5), zeros(K+r.Intn(K)))})
+		add(wvlib.BEntry{Path: "zeros/mid.bin", Kind: 'f', Data: cat(r.Bytes(K), zeros(K), r.Bytes(K))})
+		add(wvlib.BEntry{Path: "zeros/head.bin", Kind: 'f', Data: cat(zeros(K), r.Bytes(100))})
+		add(wvlib.BEntry{Path: "zeros/small.bin", Kind: 'f', Data: zeros(1 + r.Intn(4096))})
+		add(wvlib.BEntry{Path: "zeros/exact-" + fmt.Sprint(r.Pick(4096, 8192, 16384, 65536, 131072)) + ".bin", Kind: 'f', Data: zeros(r.Pick(4096, 8192, 16384, 65536, 131072))})
 	}
 	b.Normalize()
 	// drop duplicates introduced by the extras
